@@ -41,6 +41,17 @@ Definition coord_eqb (a b : coord) : bool := (fst a =? fst b) && (snd a =? snd b
 Definition coord_leb (a b : coord) : bool :=
   (fst a <? fst b) || ((fst a =? fst b) && (snd a <=? snd b)).
 
+(* further spaces of the model: legacy MultiGrid / HexSingleGrid / HexMultiGrid / NetworkGrid / ContinuousSpace (no
+   generator of their own: `.agents` takes agents[0].random, the documented unseeded fall-back when the space is
+   empty) and the experimental ContinuousSpace (carries the generator it was built with) *)
+Record xspace := {
+  xs_legacy : bool;              (* true: first-agent fall-back ; false: AgentSet(self.active_agents, random=self.random) *)
+  xs_keyed : bool;               (* `.agents` walks the cells / nodes in index order (grids, network); false: insertion order *)
+  xs_single : bool;              (* at most one agent per cell (HexSingleGrid) *)
+  xs_gen : genid;                (* the generator the space carries (meaningful when not legacy) *)
+  xs_items : list (Z * Z)        (* (cell / node index, agent id) in the order the agents were put there *)
+}.
+
 Record world := {
   w_agents : list agent;            (* model._agents = model._all_agents : registration order *)
   w_next : Z;                       (* next(Agent._ids[model]) *)
@@ -49,7 +60,8 @@ Record world := {
   w_conn : list (Z * list Z);       (* cell id -> cell.connections.values(), in connection order *)
   w_lw : Z; w_lh : Z;               (* the legacy SingleGrid *)
   w_lgrid : list (coord * Z);       (* its occupied cells : coordinate -> agent id *)
-  w_cutoff : Z                      (* floor(grid.cutoff_empties) *)
+  w_cutoff : Z;                     (* floor(grid.cutoff_empties) *)
+  w_xspaces : list xspace
 }.
 
 (* ------------------------------------------------------------------ small list helpers *)
@@ -130,9 +142,45 @@ Inductive term :=
 | TCopy (d : term)                          (* copy.copy(d) *)
 | TNew (d : term) (seeded : bool)           (* AgentSet(list(d), random = model.random | None) *)
 | TSpaceAgents                              (* cell space .agents *)
-| TLegacyAgents.                            (* legacy grid .agents *)
+| TLegacyAgents                             (* legacy grid .agents *)
+| TXAgents (s : Z).                         (* .agents of the s-th further space (MultiGrid, hex, network, continuous) *)
 
 Definition all_ids (w : world) : list Z := map a_id (w_agents w).
+
+(* ---- further spaces *)
+Fixpoint xkey_of (a : Z) (l : list (Z * Z)) : Z :=
+  match l with
+  | [] => 0
+  | (k, b) :: t => if a =? b then k else xkey_of a t
+  end.
+
+(* what `.agents` collects, in its order: for entry in <cells / nodes in index order>: for agent in entry (placement
+   order) - a stable sort by index;  the continuous spaces keep an insertion-ordered list / dict *)
+Definition xs_members (x : xspace) : list Z :=
+  let ids := map snd (xs_items x) in
+  if xs_keyed x then sort_by (fun a b => xkey_of a (xs_items x) <=? xkey_of b (xs_items x)) ids else ids.
+
+(* rng = agents[0].random (= its model's generator)   except IndexError: rng = None  -> the unseeded fall-back *)
+Definition legacy_fallback (members : list Z) : genid :=
+  match members with [] => OTHER_GEN | _ => MODEL_GEN end.
+
+Definition xs_agents_gen (x : xspace) : genid :=
+  if xs_legacy x then legacy_fallback (xs_members x) else xs_gen x.
+
+Definition xs_has (a : Z) (x : xspace) : bool := existsb (fun e => snd e =? a) (xs_items x).
+Definition xs_key_used (k : Z) (x : xspace) : bool := existsb (fun e => fst e =? k) (xs_items x).
+Definition xs_set_items (x : xspace) (l : list (Z * Z)) : xspace :=
+  {| xs_legacy := xs_legacy x; xs_keyed := xs_keyed x; xs_single := xs_single x; xs_gen := xs_gen x; xs_items := l |}.
+Definition xs_remove (a : Z) (x : xspace) : xspace :=
+  xs_set_items x (filter (fun e => negb (snd e =? a)) (xs_items x)).
+Definition in_any_xspace (xs : list xspace) (a : Z) : bool := existsb (xs_has a) xs.
+
+Fixpoint xs_update (xs : list xspace) (n : nat) (f : xspace -> xspace) : list xspace :=
+  match xs, n with
+  | [], _ => []
+  | x :: t, O => f x :: t
+  | x :: t, S n' => x :: xs_update t n' f
+  end.
 
 Definition legacy_cells (w : world) : list coord :=
   flat_map (fun x => map (fun y => (x, y)) (zrange 0 (w_lh w - 1))) (zrange 0 (w_lw w - 1)).
@@ -203,6 +251,11 @@ Fixpoint eval (w : world) (d : term) : result coll :=
       | [] => Ok {| members := []; gen := OTHER_GEN |}         (* rng = None -> the unseeded fall-back *)
       | l => Ok {| members := l; gen := MODEL_GEN |}           (* rng = agents[0].random = agents[0].model.random *)
       end
+  | TXAgents s =>
+      match znth (w_xspaces w) s with
+      | None => Err E_NOSUCH
+      | Some x => Ok {| members := xs_members x; gen := xs_agents_gen x |}
+      end
   end.
 
 (* ------------------------------------------------------------------ CellCollection derivations *)
@@ -266,7 +319,7 @@ Definition l_remove (a : Z) (l : list (coord * Z)) : list (coord * Z) :=
 
 Definition set_lgrid (w : world) (g : list (coord * Z)) : world :=
   {| w_agents := w_agents w; w_next := w_next w; w_sgen := w_sgen w; w_cells := w_cells w; w_conn := w_conn w;
-     w_lw := w_lw w; w_lh := w_lh w; w_lgrid := g; w_cutoff := w_cutoff w |}.
+     w_lw := w_lw w; w_lh := w_lh w; w_lgrid := g; w_cutoff := w_cutoff w; w_xspaces := w_xspaces w |}.
 
 Fixpoint celem (p : coord) (l : list coord) : bool :=
   match l with [] => false | q :: t => coord_eqb p q || celem p t end.
@@ -359,7 +412,10 @@ Inductive op :=
 | RandomAgent (d : cterm) (k : Z)          (* d.select_random_agent() *)
 | TryRandomEmpty (tape : list Z)           (* Grid.select_random_empty_cell(), _try_random = True *)
 | MoveOneOf (a : Z) (ps : list coord) (closest : bool) (idxs : list Z) (k : Z)
-| Reset.                                   (* model.reset_randomizer([seed]) *)
+| Reset                                    (* model.reset_randomizer([seed]) *)
+| XPlace (s a k : Z)                       (* legacy further space s: place_agent(a, <cell / node k>) of an agent that is in no space *)
+| XRemove (s a : Z)                        (* legacy further space s: remove_agent(a) *)
+| XCreate (s k : Z).                       (* experimental ContinuousSpace s: ContinuousSpaceAgent(space, model), key attribute k *)
                                            (* grid.move_agent_to_one_of(a, ps, selection) ; ps free cells or a's own *)
 
 Definition obs_err (k : Z) : list Z :=
@@ -377,9 +433,10 @@ Fixpoint mk_agents (c : Z) (next : Z) (keys : list Z) : list agent :=
   | k :: t => {| a_id := next; a_cls := c; a_key := k |} :: mk_agents c (next + 1) t
   end.
 
-Definition set_agents (w : world) (l : list agent) (next : Z) (cells : list (Z * list Z)) (g : list (coord * Z)) : world :=
+Definition set_agents (w : world) (l : list agent) (next : Z) (cells : list (Z * list Z)) (g : list (coord * Z))
+           (xs : list xspace) : world :=
   {| w_agents := l; w_next := next; w_sgen := w_sgen w; w_cells := cells; w_conn := w_conn w;
-     w_lw := w_lw w; w_lh := w_lh w; w_lgrid := g; w_cutoff := w_cutoff w |}.
+     w_lw := w_lw w; w_lh := w_lh w; w_lgrid := g; w_cutoff := w_cutoff w; w_xspaces := xs |}.
 
 Definition step (srt : bool) (w : world) (o : op) : world * list Z :=
   match o with
@@ -387,7 +444,7 @@ Definition step (srt : bool) (w : world) (o : op) : world * list Z :=
   | DeriveC d => (w, obs_res (ceval w d))
   | Create c keys =>
       let new := mk_agents c (w_next w) keys in
-      (set_agents w (w_agents w ++ new) (w_next w + Z.of_nat (length keys)) (w_cells w) (w_lgrid w),
+      (set_agents w (w_agents w ++ new) (w_next w + Z.of_nat (length keys)) (w_cells w) (w_lgrid w) (w_xspaces w),
        obs_coll {| members := map a_id new; gen := MODEL_GEN |})   (* AgentSet(agents, random=model.random) *)
   | Remove a =>
       match find_agent a (w_agents w) with
@@ -395,7 +452,7 @@ Definition step (srt : bool) (w : world) (o : op) : world * list Z :=
       | Some _ =>
           let w' := set_agents w (filter (fun b => negb (a_id b =? a)) (w_agents w)) (w_next w)
                       (map (fun e => (fst e, filter (fun b => negb (b =? a)) (snd e))) (w_cells w))
-                      (l_remove a (w_lgrid w)) in
+                      (l_remove a (w_lgrid w)) (map (xs_remove a) (w_xspaces w)) in
           (w', 0 :: all_ids w')
       end
   | SelectRandomEmpty k =>
@@ -406,7 +463,7 @@ Definition step (srt : bool) (w : world) (o : op) : world * list Z :=
   | LPlace a p =>
       match find_agent a (w_agents w), lpos_of a (w_lgrid w) with
       | Some _, None =>
-          if l_in_grid w p && l_is_empty w p then
+          if l_in_grid w p && l_is_empty w p && negb (in_any_xspace (w_xspaces w) a) then
             let w' := set_lgrid w (w_lgrid w ++ [(p, a)]) in (w', 0 :: lgrid_view w')
           else (w, obs_err E_NOSUCH)
       | _, _ => (w, obs_err E_NOSUCH)
@@ -417,7 +474,7 @@ Definition step (srt : bool) (w : world) (o : op) : world * list Z :=
       | Some _ => let w' := set_lgrid w (l_remove a (w_lgrid w)) in (w', 0 :: lgrid_view w')
       end
   | MoveToEmpty a pi k tape =>
-      match find_agent a (w_agents w) with
+      match (if in_any_xspace (w_xspaces w) a then None else find_agent a (w_agents w)) with
       | None => (w, obs_err E_NOSUCH)
       | Some _ =>
           match choose_empty srt w pi k tape with
@@ -456,6 +513,42 @@ Definition step (srt : bool) (w : world) (o : op) : world * list Z :=
       match try_random w tape with
       | Ok c => (w, [w_sgen w; c])
       | Err e => (w, obs_err e)
+      end
+  | XPlace s a k =>
+      match find_agent a (w_agents w), znth (w_xspaces w) s with
+      | Some _, Some x =>
+          if xs_legacy x && negb (in_any_xspace (w_xspaces w) a)
+             && (match lpos_of a (w_lgrid w) with None => true | Some _ => false end)
+             && negb (xs_single x && xs_key_used k x)
+          then let x' := xs_set_items x (xs_items x ++ [(k, a)]) in
+               (set_agents w (w_agents w) (w_next w) (w_cells w) (w_lgrid w)
+                           (xs_update (w_xspaces w) (Z.to_nat s) (fun _ => x')),
+                xs_agents_gen x' :: xs_members x')
+          else (w, obs_err E_NOSUCH)
+      | _, _ => (w, obs_err E_NOSUCH)
+      end
+  | XRemove s a =>
+      match znth (w_xspaces w) s with
+      | Some x =>
+          if xs_legacy x && xs_has a x
+          then let x' := xs_remove a x in
+               (set_agents w (w_agents w) (w_next w) (w_cells w) (w_lgrid w)
+                           (xs_update (w_xspaces w) (Z.to_nat s) (fun _ => x')),
+                0 :: xs_members x')
+          else (w, obs_err E_NOSUCH)
+      | None => (w, obs_err E_NOSUCH)
+      end
+  | XCreate s k =>
+      match znth (w_xspaces w) s with
+      | Some x =>
+          if negb (xs_legacy x)
+          then let a := w_next w in
+               let x' := xs_set_items x (xs_items x ++ [(0, a)]) in
+               (set_agents w (w_agents w ++ [{| a_id := a; a_cls := 2; a_key := k |}]) (w_next w + 1) (w_cells w) (w_lgrid w)
+                           (xs_update (w_xspaces w) (Z.to_nat s) (fun _ => x')),
+                xs_agents_gen x' :: xs_members x')
+          else (w, obs_err E_NOSUCH)
+      | None => (w, obs_err E_NOSUCH)
       end
   | Reset =>
       (* self.random.seed(seed): the generator OBJECT is re-seeded in place, so model.agents, the by-type sets, the space,
